@@ -208,8 +208,16 @@ func runKM4(c *Ctx, s *Sink) {
 	c.EachFunc([]string{"pkg/obikmer"}, func(p *packages.Package, fd *ast.FuncDecl) {
 		info := p.TypesInfo
 		ast.Inspect(fd.Body, func(n ast.Node) bool {
-			loop, ok := n.(*ast.ForStmt)
-			if !ok {
+			var loop struct {
+				Body *ast.BlockStmt
+				Post ast.Stmt
+			}
+			switch l := n.(type) {
+			case *ast.ForStmt:
+				loop.Body, loop.Post = l.Body, l.Post
+			case *ast.RangeStmt:
+				loop.Body = l.Body
+			default:
 				return true
 			}
 			// counter: incremented in the loop body (top level) and compared with ==
@@ -284,9 +292,9 @@ func runKM4(c *Ctx, s *Sink) {
 			})
 			switch {
 			case len(bad) > 0:
-				s.Fail(nil, key, loop.Pos(), "the rolled words are reset but the count of accumulated symbols is not: "+strings.Join(bad, "; ")+": k-mers spanning the reset are emitted from the zeroed words, the two strands give different canonical k-mers")
+				s.Fail(nil, key, n.Pos(), "the rolled words are reset but the count of accumulated symbols is not: "+strings.Join(bad, "; ")+": k-mers spanning the reset are emitted from the zeroed words, the two strands give different canonical k-mers")
 			default:
-				s.Pass(nil, key, loop.Pos(), fmt.Sprintf("%d reset block(s) of the rolled words, each resetting %s too", nreset, counter.Name()))
+				s.Pass(nil, key, n.Pos(), fmt.Sprintf("%d reset block(s) of the rolled words, each resetting %s too", nreset, counter.Name()))
 			}
 			return true
 		})
